@@ -7,6 +7,14 @@ global size_of usize == 8;
 
 //@@ PDFERROR
 
+// std semantics of the free functions core::cmp::max / min (TRUSTED, core::cmp docs: `max` returns the second argument when the
+// two compare equal, `min` the first; `OrdSpec` is vstd's model of `Ord`, defined for the primitive integers). The method forms
+// `a.max(b)` / `a.min(b)` are read natively by this Verus.
+pub assume_specification<T: core::cmp::Ord> [core::cmp::max::<T>] (a: T, b: T) -> (r: T)
+    ensures <T as vstd::std_specs::cmp::OrdSpec>::obeys_cmp_spec() ==> r == (if vstd::std_specs::cmp::OrdSpec::cmp_spec(&a, &b) is Greater { a } else { b });
+pub assume_specification<T: core::cmp::Ord> [core::cmp::min::<T>] (a: T, b: T) -> (r: T)
+    ensures <T as vstd::std_specs::cmp::OrdSpec>::obeys_cmp_spec() ==> r == (if vstd::std_specs::cmp::OrdSpec::cmp_spec(&a, &b) is Greater { b } else { a });
+
 //@@ DEVIATIONS
 
 //@@ enum PredictorType
@@ -114,6 +122,34 @@ pub proof fn lemma_geom_arith(n: int, b: int, c: int)
     assert(n * b == 0 ==> (n * b) * c == 0) by (nonlinear_arith);
     assert(c == 0 ==> c * n == 0) by (nonlinear_arith);
     assert(n == 0 ==> c * n == 0) by (nonlinear_arith);
+}
+// bytes per pixel spelled component-wise, `Colors * (BitsPerComponent / 8)` (either operand order), against the pixel's bit count:
+// pure arithmetic, no hypothesis about the code (the solver has no theory of non-linear products)
+pub proof fn lemma_component_bytes(n: int, b: int)
+    ensures n >= 0 && b >= 0 ==> 0 <= n * (b / 8) <= n * b && n * (b / 8) <= (n * b) / 8 && (b / 8) * n == n * (b / 8)
+                && (b % 8 == 0 ==> n * (b / 8) == (n * b) / 8) && (b < 8 ==> n * (b / 8) == 0) && (8 <= b < 16 ==> n * (b / 8) == n) && (b >= 8 ==> n * (b / 8) >= n)
+{
+    if n >= 0 && b >= 0 {
+        let q = b / 8;
+        assert(0 <= q <= b && b == 8 * q + b % 8);
+        assert(0 <= n * q <= n * b && q * n == n * q) by (nonlinear_arith) requires n >= 0, 0 <= q <= b;
+        assert(n * b == 8 * (n * q) + n * (b % 8)) by (nonlinear_arith) requires b == 8 * q + b % 8;
+        assert(n * (b % 8) >= 0) by (nonlinear_arith) requires n >= 0, b % 8 >= 0;
+        assert(b % 8 == 0 ==> n * (b % 8) == 0) by (nonlinear_arith);
+        assert(q == 0 ==> n * q == 0) by (nonlinear_arith);
+        assert(q == 1 ==> n * q == n) by (nonlinear_arith);
+        assert(q >= 1 ==> n * q >= n) by (nonlinear_arith) requires n >= 0;
+    }
+}
+// the specification's pixel distance for the five conforming sample widths, in the two spellings code uses (spec side only)
+pub proof fn lemma_pixel_bytes_forms(p: &LZWFlateParams)
+    ensures geom_ok(p) && !DEV_GEOMETRY_IGNORES_BPC() ==> {
+                let n = p.n_components as int; let b = p.bits_per_component as int;
+                &&& (b >= 8 ==> pixel_bytes(p) == n * (b / 8) && pixel_bytes(p) == (n * b) / 8)
+                &&& (b < 8 ==> pixel_bytes(p) == if (n * b) / 8 >= 1 { (n * b) / 8 } else { 1 })
+            }
+{
+    lemma_component_bytes(p.n_components as int, p.bits_per_component as int);
 }
 // how many whole rows of s+1 bytes fit: (k+1)(s+1) <= len  <==>  k+1 <= len / (s+1)
 pub proof fn lemma_rows_fit(k: int, s: int, len: int)
